@@ -22,7 +22,7 @@ def run_one(sid, allprops):
         alarms = {}
         for p in (PROPS if allprops else [own]):
             env = dict(os.environ, GEOM_REPO=tmp, VERIF_DIR=V)
-            r = subprocess.run([os.path.join(V, "bin/geomcheck"), "check", "-prop", p, "-tier", "quick", "-no-evidence"], env=env, capture_output=True, text=True)
+            r = subprocess.run([os.environ.get("GEOMCHECK_BIN") or os.path.join(V, "bin/geomcheck"), "check", "-prop", p, "-tier", "quick", "-no-evidence"], env=env, capture_output=True, text=True)
             if r.returncode != 0:
                 out = r.stdout + r.stderr
                 alarms[p] = [l.strip()[:400] for l in out.splitlines() if re.match(r"\s+(VIOLATED|UNDECIDED)", l)][:6]
@@ -58,5 +58,6 @@ def main():
 
 if __name__ == "__main__":
     import subprocess as _sp, os as _os
-    _sp.run([_os.path.join(_os.path.dirname(_os.path.abspath(__file__)), "build.sh")], check=True)
+    if not _os.environ.get("GEOMCHECK_BIN"):
+        _sp.run([_os.path.join(_os.path.dirname(_os.path.abspath(__file__)), "build.sh")], check=True)
     main()
